@@ -13,7 +13,7 @@ CHECKS = {
  "C03": dict(text="Lean theorems: C03_dispatch_sound_templated/_generic about the dispatch table REGENERATED from bspline_eval.h on every run (for every list of per-dimension orders the routine pair selected by get_evaluator has template arguments describing exactly that table); C03_generic_loop_is_walk / C03_templated_loop_is_generic / C03_selected_core_eq_generic: the odometer loops as written (while/break of the generic core, for+tail of the templated cores, carry loop, incremental basis_tree update) equal the nested block walk for EVERY arithmetic, and the selected core has the table's chunk count, hence returns bit for bit what the generic core returns; gradient value/derivative lanes are operation-for-operation the rows of plain evaluation. Tied to the code by the translator plus a bitwise comparison, in the real binary, of generic members / evaluator objects / call operators / C interface / gradient lanes, built with and without PHOTOSPLINE_NO_EVAL_TEMPLATES, and of the generic path with the model.",
              note="Trusted: tools/gen_dispatch.py (fails closed), Lean kernel. The templated loop bodies are modelled by their shape and chunk count (template arguments substituted for run-time orders); the SIMD lane loops are modelled as independent scalar walks.",
              technique="translator (source -> Lean table) + Lean 4 proof (decide over the generated table lifted to all order lists; induction over odometer digits) + bitwise path comparison", ref="4/C03"),
- "C05": dict(text="Lean theorems: a NaN coordinate is rejected before any search and every non-NaN coordinate terminates with centres in [order, nknots-order-2] (C05_nan_lookup_rejected + C04); C05_eval_reads_owned: for EVERY arithmetic (arbitrary comparison outcomes: NaN, infinities, anything) and centres in range, ndsplineeval / ndsplineeval_deriv (any bitmask, any derivative orders) depend only on knots[-order .. nknots+order-1] and coefficients[0 .. ncoef-1], i.e. every index they use lies in owned storage, and all loops are fuel-bounded; the same for the gradient rows; requests beyond the SIMD capacity are refused. Tied to the code by an ASan+UBSan+assert build of every entry point on tables allocated with the library's own idiom (red zones exactly at +-order), with arbitrary IEEE doubles, and by bit comparison of every returned value with the model.",
+ "C05": dict(text="Lean theorems: a NaN coordinate is rejected before any search and every non-NaN coordinate terminates with centres in [order, nknots-order-2] (C05_nan_lookup_rejected + C04); C05_eval_reads_owned: for EVERY arithmetic (arbitrary comparison outcomes: NaN, infinities, anything) and centres in range, ndsplineeval / ndsplineeval_deriv (any bitmask, any derivative orders) depend only on knots[-order .. nknots+order-1] and coefficients[0 .. ncoef-1], i.e. every index they use lies in owned storage, and all loops are fuel-bounded; the same for every lane of ndsplineeval_gradient (C05_gradient_reads_owned); requests beyond the SIMD capacity are refused. Tied to the code by an ASan+UBSan+assert build of every entry point on tables allocated with the library's own idiom (red zones exactly at +-order), with arbitrary IEEE doubles, and by bit comparison of every returned value with the model.",
              note="The theorem is about the model's index arithmetic (validated bit-for-bit against the code each run); absence of UB in the compiled code is observed under sanitizers, not proved. Uninitialised-but-owned padding may be read (allowed by the property; C01 proves results do not depend on it).",
              technique="Lean 4 proof (dependence-on-owned-memory by congruence, any arithmetic) + sanitizer differential run", ref="4/C05"),
  "C04": dict(text="Lean theorems C04_searchAxis / C04_searchCenters (any linear order, any number of dimensions, any well-formed knot vector): lookup rejects exactly outside (first,last], always terminates, centre within [order, nknots-order-2] and bracketing; tied to the code by exact equality of searchcenters / tablesearchcenters / evaluator.searchcenters with the executable model on order-isomorphic integer keys, plus the theorem's right-hand side evaluated directly on the implementation's answers.",
